@@ -781,15 +781,15 @@ def _expected(w, rs, checker, op, action, pop, writer):
         return dict(result="ok", handle=first, w_after=w_after)
     if first is not None and action in ("accept", "promote"):
         if checker:
-            if pop == "!error" or (pop == "value-70" and first != "value-70"):
+            if pop == "!error" or (pop.startswith("value-") and first != pop):
                 return dict(result="err", handle=None, w_after=w_after)
         if action == "promote" and writer and not primary:
             w_after = first
         return dict(result="ok", handle=first, w_after=w_after)
     # miss or Replace
-    if pop != "value-70":
+    if not pop.startswith("value-"):
         return dict(result="err", handle=None, w_after=w_after)
-    return dict(result="ok", handle="value-70", w_after=("value-70" if writer else None))
+    return dict(result="ok", handle=pop, w_after=(pop if writer else None))
 
 
 def native_stack_sweep(scratch, want):
@@ -806,7 +806,7 @@ def native_stack_sweep(scratch, want):
                     for rs in itertools.product((None, 50, 60), repeat=nread):
                         for checker in (False, True):
                             for (op, action) in (("get", None), ("gou", "accept"), ("gou", "promote"), ("gou", "replace"), ("ensure", "promote")):
-                                for pop in (("value-70", "!notfound", "!error") if op != "get" else (None,)):
+                                for pop in (("value-70", "value-50", "!notfound", "!error") if op != "get" else (None,)):
                                     if len(devs[profile]) >= 6:
                                         continue
                                     root = nat.sandbox()
@@ -838,12 +838,12 @@ def native_stack_sweep(scratch, want):
                                         if out["panic"]:
                                             cat, msg = "value", "panic: %s" % out["panic"][:60]
                                         elif out["result"] != exp["result"]:
-                                            cat = "checker" if checker and ("err" in (out["result"], exp["result"])) and len(set(x for x in [VALS[w] if writer else None] + [VALS[r] for r in rs] if x)) > 1 or (checker and pop == "value-70") else "value"
+                                            cat = "checker" if checker and ("err" in (out["result"], exp["result"])) and len(set(x for x in [VALS[w] if writer else None] + [VALS[r] for r in rs] if x)) > 1 or (checker and str(pop).startswith("value-")) else "value"
                                             msg = "result %s, expected %s" % (out["result"], exp["result"])
                                         elif exp["result"] == "ok" and exp["handle"] is not None and h.get("content") != exp["handle"]:
                                             cat = "handle" if h.get("offset") not in (None, "0") else "value"
                                             msg = "returned %r (offset %s), expected %r" % (h.get("content"), h.get("offset"), exp["handle"])
-                                        elif exp["result"] == "ok" and exp["handle"] is not None and (h.get("offset") != "0" or h.get("access") != "rdonly") and not (not writer and exp["handle"] == "value-70"):
+                                        elif exp["result"] == "ok" and exp["handle"] is not None and (h.get("offset") != "0" or h.get("access") != "rdonly") and not (not writer and exp["handle"] == pop):
                                             cat, msg = "handle", "returned handle access=%s offset=%s" % (h.get("access"), h.get("offset"))
                                         elif got_w != exp["w_after"]:
                                             cat, msg = "value", "write cache holds %r afterwards, expected %r" % (got_w, exp["w_after"])
@@ -953,8 +953,32 @@ def native_temp(scratch):
     return _first_reproduced(outs)
 
 
+def native_flush_order(scratch):
+    """With auto_sync on, an fsync of the file precedes the call that makes it visible under the key (every publishing path)."""
+    nat, sc = _native(scratch)
+    outs = []
+    for scen, what in ((mk_scen(6, w=None, r=None), "set_temp_file"), (mk_scen(7, w=None, r=None), "put_temp_file"), (mk_scen(3, w=None, r=None, action=1), "miss"),
+                       (mk_scen(3, w=None, r=50, action=1), "promotion"), (mk_scen(3, w=50, r=None, action=2), "replace"), (mk_scen(4, w=None, r=None), "set"), (mk_scen(5, w=None, r=None), "put")):
+        bad = []
+        for profile in ("debug", "release"):
+            r = sc.run_scenario(scen, nat, profile, strace=[])
+            if r is None:
+                continue
+            lines = r["strace"] or []
+            pub = next((i for i, ln in enumerate(lines) if re.search(r"\b(rename|renameat|renameat2|link|linkat)\(", ln) and "/w/ka" in ln and "= 0" in ln), None)
+            if pub is None:
+                continue
+            if not any("fsync(" in ln and "= 0" in ln for ln in lines[:pub]):
+                bad.append((profile, "%s: the key is published with no preceding fsync: %s" % (what, lines[pub][:100])))
+        outs.append(sc.verdict(bad, scen, "publication without a preceding flush", "a flush precedes publication natively"))
+    return _first_reproduced(outs)
+
+
 def native_finalize_errors(scratch):
     nat, sc = _native(scratch)
+    r0 = native_flush_order(scratch)
+    if r0.get("reproduced"):
+        return r0
     return _first_reproduced([sc.o_flush_failed_published(mk_scen(6, w=None, r=None), nat, ""),
                               sc.o_flush_failed_published(mk_scen(3, w=None, r=None, action=1), nat, "")])
 
@@ -1318,7 +1342,7 @@ def readonly_glue(funcs, text):
 NATIVE_OPS = {}
 
 NATIVE = {"actions": _with_sweep(native_actions, {"value"}), "ensure": _with_sweep(native_actions, {"value"}), "checker": _with_sweep(native_checker, {"checker"}),
-          "checker-off": _with_sweep(None, {"checker", "value"}), "rewind": _with_sweep(native_rewind, {"handle"}),
+          "checker-off": _with_sweep(None, {"checker", "value"}), "rewind": _with_sweep(native_rewind, {"handle", "value"}),
           "errors": _with_sweep(native_errors, {"value", "checker"}), "temp": _with_sweep(native_temp, {"temp"}), "readonly-handle": _with_sweep(native_rewind, {"handle"}),
           "flush": native_finalize_errors, "order": _with_sweep(native_actions, {"value"}), "classify": _with_sweep(native_actions, {"value"}),
           "finalize_errors": native_finalize_errors, "finalize_sync": native_finalize_errors, "finalize_mode": None}
